@@ -259,8 +259,7 @@ package httpcache
 //@   ensures r.swrTimeout == *timeout                                                     # name: option-sets-the-timeout
 //@ func newTransport
 //@   property C20
-//@   nosafety
-//@   requires conn != nil && http.DefaultTransport != nil
+//@   requires conn != nil && http.DefaultTransport != nil && (forall j int :: 0 <= j && j < len(options) ==> options[j] != nil)
 //@   assigns *
 //@   ensures result != nil && typeis(result, *transport) && wired(as(result, *transport))                       # name: fully-wired
 //@   ensures as(result, *transport).swrTimeout > 0                                                               # name: swr-timeout-positive
